@@ -53,6 +53,32 @@ pub fn gen_unknown(rng: &mut Rng, n_events_hint: usize, max_codes: u64) -> Vec<U
     v
 }
 
+/// Table entries for events that never occur: unknown codes, and known codes the version does not use.
+pub fn gen_phantom(rng: &mut Rng, v: (u8, u8)) -> Vec<(u8, u16)> {
+    let mut out = vec![];
+    let mut cands: Vec<(u8, u16)> = vec![];
+    if !L::gte(v, (2, 2)) {
+        cands.push((L::CODE_FSTART, 8));
+    }
+    if !L::gte(v, (3, 0)) {
+        cands.push((L::CODE_ITEM, 37));
+        cands.push((L::CODE_FEND, 4));
+    }
+    if !L::gte(v, (3, 3)) {
+        cands.push((L::CODE_GECKO, 300));
+        cands.push((L::CODE_SPLITTER, 516));
+    }
+    for c in cands {
+        if rng.chance(1, 3) {
+            out.push(c);
+        }
+    }
+    if rng.chance(1, 3) {
+        out.push((0x40 + rng.below(0x40) as u8, 1 + rng.below(300) as u16));
+    }
+    out
+}
+
 pub fn events_hint(rec: &RecorderSpec) -> usize {
     let mut n = 1;
     if let Some(g) = &rec.gecko {
